@@ -3,7 +3,7 @@ re-check of Props/<id>.v + correspondence (real spydrnet vs extracted Coq model,
 queries, canonical tuples compared) + independent oracles on the implementation (recursive path
 enumeration; union-find elaboration) + flyweight identity (implementation only) + corpus +
 shrinking + search for a failing input + evidence."""
-import json, os, sys, time, collections, random, subprocess
+import json, os, sys, time, collections, random, subprocess, signal
 sys.path.insert(0, os.path.dirname(os.path.abspath(__file__)))
 import common
 common.ensure_impl_python()
@@ -15,8 +15,9 @@ from ir_world import World
 
 KINDS = ['inst', 'port', 'pin', 'cable', 'wire']
 SELS = ['ALL', 'INSIDE', 'OUTSIDE', 'BOTH']
-COQ_FILES = ['Hier/Paths', 'Hier/Enum', 'Hier/Trace', 'Proofs/HierValid', 'Proofs/HierEnum',
-             'Proofs/HierClosure', 'Proofs/HierTrace', 'Props/C11', 'Props/C12', 'Extract/ExtractHier']
+COQ_FILES = ['Hier/Paths', 'Hier/Enum', 'Hier/Trace', 'Hier/Conn', 'Proofs/HierValid', 'Proofs/HierEnum',
+             'Proofs/HierClosure', 'Proofs/HierC11', 'Proofs/HierTrace', 'Proofs/HierNarrow', 'Proofs/HierTraceEx',
+             'Props/C11', 'Props/C12', 'Extract/ExtractHier']
 BUDGET = {('C11', 'quick'): 110, ('C11', 'thorough'): 2400, ('C12', 'quick'): 140, ('C12', 'thorough'): 3000}
 
 
@@ -78,9 +79,43 @@ def cmp3(P, what, sigbase, impl, model, expected):
         P.add('oracle', '%s|%s' % (sigbase, shape), what=what, impl_vs_expected=diff(impl, expected))
 
 
+class Skip(Exception):
+    """the candidate is outside the quantifier of the properties (only shrinking produces these)"""
+
+
+class Timeout(Exception):
+    pass
+
+
+def _alarm(signum, frame):
+    raise Timeout()
+
+
+def has_cycle(w):
+    """a definition (transitively) instantiates itself: the queries of the implementation do not
+    terminate on such a design, and the properties only speak about elaborable designs"""
+    state = {}
+
+    def visit(d):
+        if state.get(id(d)) == 1:
+            return True
+        if state.get(id(d)) == 2:
+            return False
+        state[id(d)] = 1
+        for c in d.children:
+            if c.reference is not None and visit(c.reference):
+                return True
+        state[id(d)] = 2
+        return False
+    return any(visit(o) for o in w.objs if isinstance(o, sdn.ir.Definition))
+
+
 def setup(ops, m):
     w = World(listen=False)
     outs = [w.apply(op) for op in ops]
+    if has_cycle(w):
+        w.close()
+        raise Skip('instantiation cycle')
     m.reset()
     mouts = m.ops(ops)
     return w, outs, mouts
@@ -108,7 +143,7 @@ def run_case_c11(ops, edit_ops, rng, stats, m, light=False):
         n, nl = netlist_of(w)
         if nl is None or nl.top_instance is None:
             return P
-        wf = m.ask(['wf'])[0]
+        wf = m.ask(['wf %d' % n])[0]
         stats['wf:' + wf] += 1
         E = hier_oracles.Elab(w, nl)
         stats['paths'].append(len(E.paths))
@@ -227,6 +262,8 @@ def run_case_c11(ops, edit_ops, rng, stats, m, light=False):
         #       current netlist says
         if edit_ops:
             eouts = [w.apply(op) for op in edit_ops]
+            if has_cycle(w):
+                raise Skip('instantiation cycle after edits')
             mouts = m.ops(edit_ops)
             for op, a, b in zip(edit_ops, eouts, mouts):
                 stats['edit:%s/%s' % (op[0] + (':' + op[1] if op[0] in ('remove', 'create') else ''), a)] += 1
@@ -270,7 +307,7 @@ def run_case_c12(ops, rng, stats, m, cap=70):
         n, nl = netlist_of(w)
         if nl is None or nl.top_instance is None:
             return P
-        wf = m.ask(['wf', 'prep %d' % n])
+        wf = m.ask(['wf %d' % n, 'prep %d' % n])
         stats['wf:' + wf[0]] += 1
         bad = hier_oracles.well_formed(w, nl)
         stats['impl-well-formed:%s' % (not bad)] += 1
@@ -335,10 +372,25 @@ def net_shape(E, c):
     return ('ports+' if ports else '') + ('instpins' if inst else '') or 'floating'
 
 
-def run_case(prop, case, rng, stats, m, light=False):
-    if prop == 'C11':
-        return run_case_c11(case['ops'], case.get('edits') or [], rng, stats, m, light=light)
-    return run_case_c12(case['ops'], rng, stats, m)
+def run_case(prop, case, rng, stats, m, light=False, limit=30):
+    """one netlist through all comparisons; a query of the implementation that does not come back
+    within `limit` seconds on an acyclic design is reported as a property failure"""
+    old = signal.signal(signal.SIGALRM, _alarm)
+    signal.alarm(limit)
+    try:
+        if prop == 'C11':
+            return run_case_c11(case['ops'], case.get('edits') or [], rng, stats, m, light=light)
+        return run_case_c12(case['ops'], rng, stats, m)
+    except Skip:
+        return Problems()
+    except Timeout:
+        m.restart()
+        P = Problems()
+        P.add('oracle', '%s|query-does-not-terminate' % prop, limit_s=limit)
+        return P
+    finally:
+        signal.alarm(0)
+        signal.signal(signal.SIGALRM, old)
 
 
 # ------------------------------------------------------------------------------------ generation
